@@ -383,6 +383,10 @@ class Check:
             failed.append("make %s failed:\n%s" % (" ".join(targets), out[-2500:]))
         for vf in m.PROPERTIES_V:
             rc2, out2 = coqc(vf, timeout=600)
+            if rc2 != 0:   # one retry: another build writing the same .vo at the same moment is not a broken proof
+                time.sleep(3)
+                coq_make(targets, timeout=1500)
+                rc2, out2 = coqc(vf, timeout=600)
             obs = obligations_of(vf)
             if rc2 == 0:
                 discharged += len(obs)
